@@ -123,7 +123,7 @@ fn run_prepared(rep: &Reporter, op: usize, o_react: f64, o_prod: f64, kin: f64, 
     // main population: 4 molecules; index 1 (and 2) are the reactants; with `twins`, index 3 is an
     // identical twin of reactant 2 (same solution and objective)
     let o2 = if tw == 2 { o_react } else { 1.5 };
-    let pop_vals = [7.0, o_react, o2, if tw == 1 { 1.5 } else { 9.0 }];
+    let pop_vals = [7.0, o_react, o2, if tw == 1 { 1.5 } else { 9.0 }, 11.0];
     let mut main: Vec<Individual<TagP>> = pop_vals.iter().enumerate().map(|(i, v)| tagged(10 + i as u32, Some(*v))).collect();
     if tw == 1 {
         main[3] = main[2].clone();
@@ -131,7 +131,7 @@ fn run_prepared(rep: &Reporter, op: usize, o_react: f64, o_prod: f64, kin: f64, 
     if tw == 2 {
         main[2] = main[1].clone();
     }
-    let kes = [0.25, kin, 2.0 * kin + 0.125, 3.5];
+    let kes = [0.25, kin, 2.0 * kin + 0.125, 3.5, 6.25];
     let molecules: Vec<Molecule<TagP>> = main.iter().zip(kes.iter()).map(|(i, k)| Molecule::new(*k, i.clone())).collect();
     let names = ["OnWallIneffectiveCollisionUpdate", "DecompositionUpdate", "SynthesisUpdate", "IntermolecularIneffectiveCollisionUpdate"];
     let name = names[op];
@@ -214,11 +214,12 @@ fn run_prepared(rep: &Reporter, op: usize, o_react: f64, o_prod: f64, kin: f64, 
         }
         // untouched molecules keep their record (kinetic energies are unique fingerprints)
         let untouched: Vec<usize> = match op {
-            0 | 1 => vec![0, 2, 3],
-            _ => vec![0, 3],
+            0 | 1 => vec![0, 2, 3, 4],
+            _ => vec![0, 3, 4],
         };
         for &i in &untouched {
-            let j = if op == 2 && i == 3 { 2 } else { i };
+            // after a synthesis the second reactant (index 2) is gone and later records move up by one
+            let j = if op == 2 && i > 2 { i - 1 } else { i };
             if after.mol.get(j).map(|m| m.0.to_bits()) != Some(kes[i].to_bits()) {
                 rep.violation(&format!("{name}:record-of-an-uninvolved-molecule-changed-or-moved"), json!({"case": case(), "molecule": i, "records_after": format!("{:?}", after.mol)}));
                 break;
@@ -285,7 +286,7 @@ impl<'r> TemplateVisitor for V<'r> {
 
 fn main() {
     let rep = Reporter::from_args("C20");
-    rep.rule("(a) each of the four reaction updates on prepared three-population states (a main population of 4 molecules with unique kinetic energies as fingerprints, optionally containing an identical twin of a reactant; reactant and product populations on top) over reactant/product objective values {-5,0,.5,3,40}^2 x kinetic energies {0,.1,5,100} x buffers {0,1,1000} x seeds; (b) every reaction update of real_cro runs observed at the step-observer hook. Per update: sum of objective values + kinetic energies + buffer unchanged within 1e-9 relative, no negative kinetic energy or buffer, one molecule record per individual with record i belonging to individual i (best memory never worse than the individual; in (a) also which slot was replaced / appended / removed and that records of uninvolved molecules did not move), stack height reduced by exactly two also when the reaction is rejected; in (a) acceptance as the energies dictate. distinct_nontrivial = distinct prepared cells + distinct template runs");
+    rep.rule("(a) each of the four reaction updates on prepared three-population states (a main population of 5 molecules with unique kinetic energies as fingerprints, optionally containing an identical twin of a reactant; reactant and product populations on top) over reactant/product objective values {-5,0,.5,3,40}^2 x kinetic energies {0,.1,5,100} x buffers {0,1,1000} x seeds; (b) every reaction update of real_cro runs observed at the step-observer hook. Per update: sum of objective values + kinetic energies + buffer unchanged within 1e-9 relative, no negative kinetic energy or buffer, one molecule record per individual with record i belonging to individual i (best memory never worse than the individual; in (a) also which slot was replaced / appended / removed and that records of uninvolved molecules did not move), stack height reduced by exactly two also when the reaction is rejected; in (a) acceptance as the energies dictate. distinct_nontrivial = distinct prepared cells + distinct template runs");
     rep.assume("finite objective values; the main population is the third population from the top when an update starts");
     prepared(&rep);
     let cases: Vec<_> = templates::cases(false, rep.seed, rep.tier.pick(8, 30)).into_iter().filter(|c| c.tmpl == Tmpl::Cro && c.n > 0).collect();
